@@ -39,6 +39,7 @@ type Val struct {
 	L   *Loc
 	Tup []*Val
 	Bad string
+	Opaque bool // L and T both set: interior address of an opaque external struct
 	// closure info
 	Fn *ssa.Function
 }
